@@ -2,7 +2,7 @@
    About SMCSamples.resample as regenerated in Gen/Kernels.v (probability vector handed to the
    generator) and Gen/Rows.v (the rows of the returned population, for ANY index vector the generator returns). *)
 From Coq Require Import Reals List Bool.
-From AV Require Import Lib.Vec Lib.Soa Gen.Kernels Gen.Rows Proofs.C02 Proofs.C09.
+From AV Require Import Lib.Vec Lib.Soa Gen.Kernels Gen.Rows Gen.Composite Proofs.C02 Proofs.C09.
 Import ListNotations.
 Open Scope R_scope.
 
@@ -36,6 +36,14 @@ Theorem C09_size_beta : forall {X} (x : list X) ll lp lq b0 b idx dX,
   /\ resample_rows_beta x ll lp lq b0 b idx dX = b.
 Proof. exact @resample_rows_size_beta. Qed.
 
+(* "draws every new particle ... with probability proportional to ...": the generator is consulted exactly once, over the WHOLE
+   population, WITH replacement (independent draws), with the probability vector of C09_probs - read from the call in the method body
+   (Gen/Composite.v); what numpy's Generator.choice does with these arguments is trusted *)
+Theorem C09_one_draw_with_replacement :
+  resample_choice_calls = 1%nat /\ resample_draws_with_replacement = true /\ resample_draws_from_whole_population = true.
+Proof. repeat split; reflexivity. Qed.
+
 Print Assumptions C09_probs.
 Print Assumptions C09_rows_intact.
 Print Assumptions C09_size_beta.
+Print Assumptions C09_one_draw_with_replacement.
